@@ -68,4 +68,12 @@ def main(argv):
 
 
 if __name__ == "__main__":
-    sys.exit(main(sys.argv))
+    # deeply nested syntax trees (nesting depth 200+) are exchanged as nested JSON
+    import threading
+    sys.setrecursionlimit(200000)
+    threading.stack_size(1024 * 1024 * 1024)
+    box = []
+    t = threading.Thread(target=lambda: box.append(main(sys.argv)))
+    t.start()
+    t.join()
+    sys.exit(box[0] if box else 2)
